@@ -252,11 +252,53 @@ def check(case, acc, tmp):
         if is_nontrivial(case, src):
             acc.nontrivial.add(h64(json.dumps(case, sort_keys=True)))
         judge(art, src, acc, bad)
+        if case['prod'] != 'A' and w == 'to_hdf5':
+            second_generation(art, acc, bad)
     finally:
         if art is not None:
             art.close()
         if inp is not None and os.path.exists(inp):
             os.unlink(inp)
+
+
+def second_generation(art, acc, bad):
+    """the file is loaded and the loaded table written again (what every command that edits a file does): the
+    second file must conform as well and hold what the loaded table holds"""
+    import h5py
+    from biom import Table
+    acc.trans += 2
+    try:
+        if art.handle is not None:
+            r = Table.from_hdf5(art.handle)
+        else:
+            with h5py.File(art.path, 'r') as fh:
+                r = Table.from_hdf5(fh)
+        src2 = c01.observe_source(r)
+    except Exception as e:
+        acc.count('skipped:second-generation-unloadable:' + type(e).__name__)      # C01's business
+        return
+    fh = h5py.File('c04-gen2-%d-%d.h5' % (os.getpid(), id(r)), 'w', driver='core', backing_store=False)
+    try:
+        try:
+            r.to_hdf5(fh, src2['generated_by'] if src2['generated_by'] is not None else c01.GEN_DEFAULT,
+                      creation_date=c01.DATE)
+        except Exception as e:
+            bad('second-generation:writer-raised:' + type(e).__name__, 'a table loaded from a written file cannot be '
+                'written again: %s: %s' % (type(e).__name__, str(e)[:300]))
+            return
+        try:
+            dec = h5spec.decode(fh)
+        except Exception as e:
+            bad('second-generation:undecodable:' + type(e).__name__, 'the raw-h5py decoder cannot walk the second '
+                'file: %s' % e)
+            return
+    finally:
+        fh.close()
+    probs = list(dec['problems']) + list(h5spec.compare(dec, src2))
+    for clause, detail in probs[:4]:
+        bad('second-generation:' + clause, 'file written from the loaded table: ' + detail)
+    if not probs:
+        acc.count('clause:second-generation')
 
 
 def judge(art, src, acc, bad):
@@ -420,7 +462,7 @@ def run(run):
         'ids-vs-source:non-ascii', 'metadata-length', 'metadata-values', 'group-metadata',
         'csr-wellformed', 'csc-wellformed', 'csr-vs-csc', 'matrix-vs-source',
         'matrix-vs-source:non-zero')]
-    need += ['class:empty-axis', 'class:all-zero', 'clause:history-conformance', 'clause:history-rewrite']
+    need += ['class:empty-axis', 'class:all-zero', 'clause:history-conformance', 'clause:history-rewrite', 'clause:second-generation']
     need += ['writer:' + x for x in WRITERS] + ['compress:on', 'compress:off']
     need += ['prod:' + p for p in ('A', 'B-ids', 'B-md', 'B-x', 'B-hdr', 'B-type', 'E')]
     need += ['route:' + r for r in E_ROUTES]
